@@ -398,7 +398,7 @@ func (d *pathDomain) Transfer(n *Node, s Store) []Store {
 			case tuple:
 				val = "?"
 			case rhs == nil:
-				if _, isDecl := n.Ast.(*ast.DeclStmt); isDecl {
+				if isVarDeclNode(n.Ast) {
 					val = "N"
 				}
 			case isNilIdent(info, rhs):
@@ -482,7 +482,7 @@ func (d *pathDomain) Transfer(n *Node, s Store) []Store {
 					}
 				}
 			} else if rhs == nil {
-				if _, isDecl := n.Ast.(*ast.DeclStmt); isDecl {
+				if isVarDeclNode(n.Ast) {
 					val = "false"
 				}
 			}
